@@ -29,11 +29,12 @@ class C18(Check):
                   "(what actions do to a frame is C12); the harness releases with a single output:IN_PORT action so the stored ingress port is observable.")
     trusted_base = ["model Model/BufPool.lean hand-written from switch.py _buffer_packet/_process_actions_for_packet_from_buffer/send_packet_in; tied by this correspondence run"]
     assumptions = ["single-threaded datapath (cooperative tasks): buffer operations are not interleaved",
+                   "the action list a buffer release runs does not raise: _process_actions_for_packet_from_buffer clears the slot after the actions ran, without try/finally, so a raising action handler would leave the id usable again (whether an action can raise on a well-formed request is C12's subject)",
                    "frames used by the harness parse as Ethernet (>= 14 bytes)",
                    "the pool stores the parsed ethernet object and emission re-packs it, the model stores bytes: they agree where pack(parse(frame)) = frame (C14's round trip; C12-3/C12-4 are the known exceptions)",
                    "release towards the controller is modelled for ONE output:CONTROLLER in the action list (op usectl); an action list with several CONTROLLER outputs, or output:TABLE causing a further table miss while the old slot is occupied, is not an op of the model (the pool bound `bounded` does not depend on it: alloc never exceeds max)"]
     rule = ("case = (max_buffers 0..4, miss_send_len, history over {miss arrival, output:CONTROLLER(max_len) arrival, packet_out(buffer id), flow_mod(buffer id), the same with an empty action list (drop), "
-            "stale/bogus/zero ids, set_config, a flow_mod WITHOUT buffer id installing an entry that covers an ingress port (model: `other`, pool untouched)}); corpus = all histories of length <= 4 over an 11-op alphabet with pool sizes 0..2; non-trivial = some id is handed out and later used, or the pool fills")
+            "stale/bogus/zero ids, set_config, a flow_mod WITHOUT buffer id installing an entry that covers an ingress port, a flow_mod naming a buffer that is refused (unknown command / unsupported action) (model: `other`, pool untouched)}); corpus = all histories of length <= 4 over a 12-op alphabet with pool sizes 0..2; non-trivial = some id is handed out and later used, or the pool fills")
 
     def setup(self):
         poxenv.boot()
@@ -43,7 +44,8 @@ class C18(Check):
     ALPHA = [{"op": "arrive", "i": 0, "len": 20, "port": 1, "dl": None}, {"op": "arrive", "i": 1, "len": 14, "port": 2, "dl": 3},
              {"op": "use", "id": 1, "via": "po"}, {"op": "use", "id": 2, "via": "fm"}, {"op": "use", "id": 0, "via": "po"},
              {"op": "use", "id": 3, "via": "po"}, {"op": "setmiss", "n": 16}, {"op": "usectl", "id": 1, "dl": 7, "via": "po"},
-             {"op": "drop", "id": 1, "via": "po"}, {"op": "use", "id": 1, "via": "pod"}, {"op": "install", "inport": 2, "out": 4}]
+             {"op": "drop", "id": 1, "via": "po"}, {"op": "use", "id": 1, "via": "pod"}, {"op": "install", "inport": 2, "out": 4},
+             {"op": "fmbad", "id": 1, "why": "cmd"}]
 
     def corpus(self):
         cases = []
@@ -61,6 +63,8 @@ class C18(Check):
             # a port covered by an installed entry never sees a table miss: its packets reach the controller by output:CONTROLLER
             dls = [0, 1, 14, 128, 65535, rng.randint(0, 300)] + ([] if port in covered else [None, None])
             return {"op": "arrive", "i": k, "len": rng.choice([14, 15, 20, 64, 128, 129, 200, rng.randint(14, 300)]), "port": port, "dl": rng.choice(dls)}
+        if r < 0.435:
+            return {"op": "fmbad", "id": rng.choice([0, 1, 1, 2, 2, 3, mx, mx + 1]), "why": rng.choice(["cmd", "act"])}
         if r < 0.45:
             p = rng.randint(1, 4)
             return {"op": "install", "inport": p, "out": rng.choice([q for q in (1, 2, 3, 4) if q != p])}
@@ -144,6 +148,17 @@ class C18(Check):
                     outs.append({"k": "unexpected", "status": st, "emitted": len(em), "replies": pins(rep)})
                 elif em: outs.append({"k": "emit", "fr": em[0][1].hex(), "port": em[0][0]})
                 else: outs.append({"k": "none"})
+            elif op["op"] == "fmbad":
+                # a flow_mod that NAMES a buffer but is refused before it is carried out (unknown command / an action type the
+                # switch cannot execute): answered with an error, nothing is emitted and the buffer stays held
+                if op["why"] == "cmd":
+                    msg = of.ofp_flow_mod(match=of.ofp_match(in_port=77), buffer_id=op["id"], command=77, actions=[of.ofp_action_output(port=of.OFPP_IN_PORT)])
+                else:
+                    msg = of.ofp_flow_mod(match=of.ofp_match(in_port=77), buffer_id=op["id"], command=of.OFPFC_ADD,
+                                          actions=[of.ofp_action_output(port=of.OFPP_IN_PORT), of.ofp_action_vendor_generic(vendor=0x2320, body=b"\0" * 4)])
+                st, rep, em = node.send(msg)
+                ok = st == "ok" and not em and len(rep) == 1 and isinstance(rep[0], of.ofp_error)
+                outs.append({"k": "none"} if ok else {"k": "unexpected", "status": st, "emitted": len(em), "replies": pins(rep)})
             elif op["op"] == "install":
                 # a flow_mod WITHOUT a buffer id installs an entry that covers every packet of one ingress port (and would send it
                 # somewhere else than a later buffer release says): the pool must not care what the table holds
@@ -163,7 +178,7 @@ class C18(Check):
             elif op["op"] == "use": ops.append({"op": "use", "id": op["id"]})
             elif op["op"] == "drop": ops.append({"op": "drop", "id": op["id"]})
             elif op["op"] == "usectl": ops.append({"op": "usectl", "id": op["id"], "dl": op["dl"]})
-            elif op["op"] == "install": ops.append({"op": "other"})
+            elif op["op"] in ("install", "fmbad"): ops.append({"op": "other"})
             else: ops.append({"op": "setmiss", "n": op["n"]})
         return {"max": case["max"], "miss": case["miss"], "ops": ops}
 
@@ -214,6 +229,8 @@ class C18(Check):
                     if o["k"] != "none": return "using unknown/used buffer id emitted a packet"
             elif op["op"] == "install":
                 if o["k"] != "none": return "a flow_mod without a buffer id produced output"
+            elif op["op"] == "fmbad":
+                if o["k"] != "none": return "a refused flow_mod emitted a packet"      # and `live` is unchanged: the buffer stays held
             else:
                 miss = op["n"]
                 if o["k"] != "none": return "set_config produced output"
